@@ -1564,6 +1564,61 @@ def _subst_names(e, env):
     return S().visit(e)
 
 
+def _calls_through_method_choice(fn, cls_name):
+    """N22: `f = Cls.m1 if t else Cls.m2` (a choice between functions of the class itself, e.g. from a folded
+    dispatch table), every use of `f` being a call `f(self, args)`: the call is the same choice between
+    `self.m1(args)` and `self.m2(args)`, and the local goes."""
+    import copy as _copy
+    if not cls_name:
+        return False
+
+    def leaves(e):
+        if isinstance(e, ast.IfExp):
+            a, b = leaves(e.body), leaves(e.orelse)
+            return None if a is None or b is None else a + b
+        if isinstance(e, ast.Attribute) and isinstance(e.value, ast.Name) and e.value.id == cls_name:
+            return [e]
+        return None
+    stores = {}
+    for n in _walk_no_nested(fn):
+        if isinstance(n, ast.Name) and isinstance(n.ctx, (ast.Store, ast.Del)):
+            stores[n.id] = stores.get(n.id, 0) + 1
+    changed = False
+    for st in list(_walk_no_nested(fn)):
+        if not (isinstance(st, ast.Assign) and len(st.targets) == 1 and isinstance(st.targets[0], ast.Name)
+                and stores.get(st.targets[0].id) == 1 and leaves(st.value)):
+            continue
+        f = st.targets[0].id
+        uses = [n for n in _walk_no_nested(fn) if isinstance(n, ast.Name) and n.id == f and isinstance(n.ctx, ast.Load)]
+        calls = [n for n in _walk_no_nested(fn) if isinstance(n, ast.Call) and isinstance(n.func, ast.Name) and n.func.id == f
+                 and n.args and isinstance(n.args[0], ast.Name) and n.args[0].id == 'self'
+                 and not any(isinstance(a, ast.Starred) for a in n.args)]
+        if not uses or len(uses) != len(calls):
+            continue
+
+        def build(e, call):
+            if isinstance(e, ast.IfExp):
+                return ast.IfExp(test=_copy.deepcopy(e.test), body=build(e.body, call), orelse=build(e.orelse, call))
+            return ast.Call(func=ast.Attribute(value=ast.Name(id='self', ctx=ast.Load()), attr=e.attr, ctx=ast.Load()),
+                            args=[_copy.deepcopy(a) for a in call.args[1:]], keywords=[_copy.deepcopy(k) for k in call.keywords])
+        ids = {id(c_): c_ for c_ in calls}
+
+        class R(ast.NodeTransformer):
+            def visit_Call(self, node):
+                self.generic_visit(node)
+                if id(node) in ids:
+                    return ast.fix_missing_locations(ast.copy_location(build(st.value, node), node))
+                return node
+        R().visit(fn)
+
+        class Drop(ast.NodeTransformer):
+            def visit_Assign(self, node):
+                return ast.copy_location(ast.Pass(), node) if node is st else node
+        Drop().visit(fn)
+        changed = True
+    return changed
+
+
 def _thread_none_guards(fn):
     """N20: the "lookup or None" shape left by an inlined helper:
         if C: v = None            v = X
@@ -1717,6 +1772,9 @@ def normalize_module(tree, no_inline, all_classes=None, recorded=None, all_funcs
     for fn_ in [n for n in ast.walk(tree) if isinstance(n, ast.FunctionDef)]:
         _forward_return_temps(fn_)
         _forward_flags(fn_)
+    for c_ in [n for n in tree.body if isinstance(n, ast.ClassDef)]:
+        for fn_ in [b for b in c_.body if isinstance(b, ast.FunctionDef)]:
+            _calls_through_method_choice(fn_, c_.name)       # (before conditional expressions are taken apart)
     tree = _DictIdioms().visit(tree)
     tree = _IfExpDesugar().visit(tree)
     tree = _Unroll().visit(tree)
@@ -1790,6 +1848,8 @@ def normalize_module(tree, no_inline, all_classes=None, recorded=None, all_funcs
         for fn in [b for b in c.body if isinstance(b, ast.FunctionDef)]:
             if _genexp_closures(fn):
                 _idioms.rewrite_function(fn, c.name)
+            if _calls_through_method_choice(fn, c.name):
+                _IfExpDesugar().visit(fn)
             inl.local_funcs = _closures(fn)
             _split_generator_loops(fn, ch, recorded)
             for _ in range(3):
